@@ -10,11 +10,14 @@ BOTH['Clipper2Lib::ClipperOffset::CalcSolutionCapacity('] = 'stub_capacity'
 META = dict(
   level_text='Model checking of the state-handling mechanisms the property depends on: (offsetting) stub-and-observe of ClipperOffset::Execute/DoGroupOffset showing that what is done to a path or group does not depend on the paths/groups processed before it; (engine) the scratch state a history can leave behind is made symbolic and one Execute on concrete geometry must produce the result of a fresh object; CleanUp()/Clear() empty every per-execution container.',
   level_note='History is not enumerated: instead the state a history can leave behind is havocked (symbolic scalars, poisoned pointers). Geometry is concrete (corpus listed in evidence); the quantifier is over left-behind state, option values, delta/join/end types.',
-  functions=['ClipperOffset::ExecuteInternal', 'ClipperOffset::DoGroupOffset', 'ClipperOffset::Group::Group', 'ClipperBase::CleanUp', 'ClipperBase::Clear', 'ClipperBase::Reset', 'Clipper64::Execute'],
+  functions=['ClipperOffset::ExecuteInternal', 'ClipperOffset::DoGroupOffset', 'ClipperOffset::Group::Group', 'ClipperBase::CleanUp', 'ClipperBase::Clear', 'ClipperBase::Reset', 'Clipper64::Execute', 'RectClip64::Execute (per-path clean-up)'],
   assumptions=['concrete small geometries', '0.5 <= |delta| <= 1e6'],
   outside=['sequences of AddSubject/Execute over symbolic geometry', 'RectClip64 per-path clean-up (see C08)'],
 )
+EXE = {'Clipper2Lib::RectClip64::ExecuteInternal(': 'stub_rc_execint', 'Clipper2Lib::RectClip64::CheckEdges(': 'stub_rc_checkedges',
+       'Clipper2Lib::RectClip64::TidyEdges(': 'stub_rc_tidy', 'Clipper2Lib::RectClip64::GetPath(': 'stub_rc_getpath'}
 OBLIGATIONS = [
+] + [O('C12.f-rectclip-perpath-cleanup-res%d' % r, 'rect_units.cpp', 'harness_perpath_cleanup', defs=['RES=%d' % r], replace=EXE, unwind=10, tiers='qt' if r in (1, 6) else 't', bound='two paths in one Execute; residue pattern %d (bits: start locations 0-2, result ring + edge entry)' % r, desc='RectClip64::Execute empties results_, edges_, start_locs_, op_container_ after every path, whatever the path left behind') for r in (0, 1, 2, 4, 5, 6)] + [
   O('C12.e-groups-independent-empty-first', 'off_dispatch.cpp', 'harness_groups_independent', defs=['LEN0=0'], replace=BOTH, unwind=8, bound='group 1: one empty path (any end type); group 2: triangle; all deltas, join/end types, flags', desc='the second group is offset with the delta of the call (sign included) whatever group came first; clean-up union keeps orientation flags'),
   O('C12.e-groups-independent-2', 'off_dispatch.cpp', 'harness_groups_independent', defs=['LEN0=2'], replace=BOTH, unwind=8, bound='group 1: two-point path; group 2: triangle', desc='as above'),
   O('C12.e-groups-independent-1', 'off_dispatch.cpp', 'harness_groups_independent', defs=['LEN0=1'], replace=BOTH, unwind=8, tiers='t', bound='group 1: single point; group 2: triangle', desc='as above'),
